@@ -9,6 +9,7 @@ import (
 	"encoding/binary"
 	"fmt"
 	"net"
+	"os"
 	"sort"
 	"strings"
 	"sync"
@@ -153,6 +154,13 @@ func (a *atk) fuzzLogin(lm *msg.Login) string {
 		lm.RunID = a.si.Inc.P.RunID
 		return "incumbent"
 	}
+}
+
+// shortFrameIsSlow: on a plain tcp connection without multiplexing the port multiplexer in front of frps waits
+// (10 s) for the first 10 bytes before it hands the connection over; shorter first writes are refused only
+// then. Correct, but slow: the quick tier leaves them to the thorough tier.
+func (a *atk) shortFrameIsSlow(n int) bool {
+	return n < 10 && !a.si.Mux && a.tr == "tcp" && !a.flipMux && !run.Thorough()
 }
 
 // wdog: with mismatched framing nothing is expected back, do not wait long for it
@@ -301,6 +309,9 @@ func (a *atk) rawLogin() {
 		{"nested-login", fmt.Sprintf(`{"login":{"privilege_key":%s},"client_spec":{"always_auth_pass":true},"run_id":%s}`, q(key), q(a.victim.P.RunID))},
 	}
 	b := bodies[rng.Intn(len(bodies))]
+	for a.shortFrameIsSlow(9+len(b.body)) {
+		b = bodies[rng.Intn(len(bodies))]
+	}
 	a.c.Ev("raw-login", "kind", b.kind, "body", clip(b.body))
 	a.sig = append(a.sig, "R:"+b.kind)
 	if _, err := conn.Write(rawFrame(msg.TypeLogin, []byte(b.body))); err != nil {
@@ -356,6 +367,9 @@ func (a *atk) firstMsg() {
 		}
 	}
 	o := opts[rng.Intn(len(opts))]
+	for !o.slow && a.shortFrameIsSlow(len(o.b)) {
+		o = opts[rng.Intn(len(opts))]
+	}
 	a.c.Ev("first-msg", "kind", o.kind)
 	a.sig = append(a.sig, "F:"+o.kind)
 	if _, err := conn.Write(o.b); err != nil {
@@ -652,6 +666,11 @@ func attackCase(c *h.Case, si *srvInfo, tr string) {
 	}
 	c.Data["sig"] = append([]string{}, a.sig...)
 	a.ledger()
+	if run.OnlyCase >= 0 { // replay: show the timed event log
+		for _, e := range c.Log.Snapshot() {
+			fmt.Fprintf(os.Stderr, "%+v\n", e)
+		}
+	}
 	sort.Strings(a.sig)
 	run.Distinct(fmt.Sprintf("attack|%s|%s|%v|%s", si.Name, tr, a.flipMux, strings.Join(a.sig, ",")))
 	if c.Idx < 3 {
